@@ -466,7 +466,7 @@ impl Check for C10 {
             .into()
     }
     fn budget(t: Tier) -> usize {
-        t.pick(6000, 150_000)
+        t.pick(60_000, 1_500_000)
     }
     fn gen(s: &mut Src, _t: Tier) -> Case {
         let mut ops = Vec::new();
